@@ -40,8 +40,8 @@ class DBFSURI:
                 raise NotImplementedError(
                     f"Cannot join path for {self}: {type(seg)}: {seg}"
                 )
-            if s.startswith("."):
-                s = s[1:]
+            if s.startswith("./"):
+                s = s[2:]
             if s.startswith("/"):
                 s = s[1:]
             if not uri.endswith("/"):
